@@ -314,6 +314,9 @@ class Runner:
         for _ in range(int(self.episode.get('warmup', 0))):
             self.step({})
         self.world.obs('warmup_end')
+        for m in self.world.monitors:
+            if hasattr(m, 'on_warmup_end'):
+                m.on_warmup_end(self.world)
         for record in self.episode.get('steps', []):
             self.step(record)
 
@@ -407,6 +410,7 @@ class Profile:
     proc_ops = ('exit', 'direct_start', 'direct_stop')
     user_ops = ()
     op_rate = 0.25                 # probability that a step carries an operation
+    ops_per_step_max = 2
     hold_rate = 0.2
     order_rate = 0.3
     inject_rate = 0.15
@@ -557,7 +561,7 @@ def steps_st(draw, config, profile=Profile, max_steps=None):
     for _ in range(nsteps):
         rec: Dict[str, Any] = {}
         if kinds and draw(_bern(profile.op_rate)):
-            nops = draw(st.integers(1, 2))
+            nops = draw(st.integers(1, profile.ops_per_step_max))
             ops = []
             for _k in range(nops):
                 ops.append(draw(op_st(config, kinds, specs)))
@@ -601,6 +605,8 @@ def op_st(draw, config, kinds, specs):
         return draw(user_rpc_st(config, i, specs))
     if kind == 'rpc_fuzz':
         return draw(fuzz_rpc_st(config, i, specs))
+    if kind == 'rpc_end':
+        return ['rpc', i, draw(st.sampled_from(['restart', 'shutdown'])), []]
     if kind == 'group_ops':
         apps = [a['name'] for a in config.get('apps', [])] or ['nothing']
         return [kind, i, draw(st.sampled_from(['removeProcessGroup', 'addProcessGroup', 'stopProcessGroup'])),
